@@ -909,7 +909,7 @@ class World:
                     "alias-registered",
                     f"resolved alias {own!r} -> {ar.target_path!r}" + (f" (alias chain ending at {target.path!r})" if chain else "")
                     + f": target.aliases[{own!r}] is {target.aliases.get(own)!r}; the alias is registered under {keys!r}",
-                    alias=own, keys=keys, occupant_detached=occupant_detached, occupant_path=occupant_path, chain=chain,
+                    alias=own, keys=keys, occupant_detached=occupant_detached, occupant_path=occupant_path, chain=chain, op=self.opfull,
                     links=links if chain else None,
                 )
         if n_direct:
